@@ -16,7 +16,7 @@ RULE = ("Generated operation sequences (<= 30 steps) on a ComposeInfo and a refe
         "unique; ci[uid] and parent[id] return the node; queries have no duplicates, are sorted by UID, every element "
         "satisfies arch and type filter, and with no filter (or arch 'src') return exactly the level / whole forest. "
         "Non-trivial = history with a refused add, a depth-3 variant and a filtered recursive query; distinct = SHA-1 of "
-        "the sequence. A 'recover' operation has a nested variant refuse an incomplete variant (TypeError/ValueError), completes it and adds it validly at the top level.")
+        "the sequence. A 'recover' operation has a nested variant refuse an incomplete variant (TypeError/ValueError), completes it and adds it validly at the top level. Forests also go on as deepcopy / pickle copies of themselves (nothing in the copy refers to the original); the compose itself is a frequent query receiver and an arch filter alone must lose nothing.")
 ASSUMPTIONS = ["the element returned for the pseudo-type 'self' is the receiver itself and is not subject to the arch filter (docstring: 'include the top-level (self) variant as well')",
                "an already attached child variant is never re-added to the top-level container (not one of the refusals the statement lists)"]
 FLOORS = {"history": 100, "history:refused:foreign-arch-first-child": 30, "history:refused:ancestor": 30, "history:depth3": 150,
